@@ -47,7 +47,7 @@ def validate_options(options):  # noqa: C901
     if truncate_strings is not None:
         try:
             truncate_strings = int(truncate_strings)
-        except (ValueError, TypeError):
+        except (ValueError, TypeError, OverflowError):
             raise SQLParseError('Invalid value for truncate_strings: '
                                 '{!r}'.format(truncate_strings))
         if truncate_strings <= 1:
@@ -55,6 +55,9 @@ def validate_options(options):  # noqa: C901
                                 '{!r}'.format(truncate_strings))
         options['truncate_strings'] = truncate_strings
         options['truncate_char'] = options.get('truncate_char', '[...]')
+        if not isinstance(options['truncate_char'], str):
+            raise SQLParseError('Invalid value for truncate_char: '
+                                '{!r}'.format(options['truncate_char']))
 
     indent_columns = options.get('indent_columns', False)
     if indent_columns not in [True, False]:
@@ -96,7 +99,7 @@ def validate_options(options):  # noqa: C901
     indent_width = options.get('indent_width', 2)
     try:
         indent_width = int(indent_width)
-    except (TypeError, ValueError):
+    except (TypeError, ValueError, OverflowError):
         raise SQLParseError('indent_width requires an integer')
     if indent_width < 1:
         raise SQLParseError('indent_width requires a positive integer')
@@ -105,7 +108,7 @@ def validate_options(options):  # noqa: C901
     wrap_after = options.get('wrap_after', 0)
     try:
         wrap_after = int(wrap_after)
-    except (TypeError, ValueError):
+    except (TypeError, ValueError, OverflowError):
         raise SQLParseError('wrap_after requires an integer')
     if wrap_after < 0:
         raise SQLParseError('wrap_after requires a positive integer')
@@ -125,7 +128,7 @@ def validate_options(options):  # noqa: C901
     if right_margin is not None:
         try:
             right_margin = int(right_margin)
-        except (TypeError, ValueError):
+        except (TypeError, ValueError, OverflowError):
             raise SQLParseError('right_margin requires an integer')
         if right_margin < 10:
             raise SQLParseError('right_margin requires an integer > 10')
